@@ -21,3 +21,50 @@ fn c17_range_new_shape() {
     assert!(r.step == if to >= from { 1 } else { -1 }, "counts down when b < a");
     assert!(r.to == if inclusive { i128::from(to) + r.step } else { i128::from(to) }, "through includes b, to stops before b");
 }
+
+// ---- K-snippet part (C17): unit handling of the END value of `@for`.
+// `SrcRange::evaluate` (sass/srcrange.rs) runs inside the evaluator, which
+// Kani cannot compile; the statement range that converts the end value to
+// the start value's unit is cut out of /repo's current source on every run
+// (tools/extract.py).  Inside the module `Invalid` is a local stand-in with
+// the one constructor the range uses (the real one formats an error text
+// through core::fmt, which is out of CBMC's reach): listed abstraction. ----
+mod for_to {
+    use crate::value::{Number, Numeric, UnitSet};
+    pub(super) struct Invalid;
+    impl Invalid {
+        pub(super) fn expected_to(_value: &Numeric, _cond: &str) -> Self {
+            Invalid
+        }
+    }
+    pub(super) fn format_stub(_args: std::fmt::Arguments<'_>) -> String {
+        String::new()
+    }
+//@range file=rsass/src/sass/srcrange.rs impl="impl SrcRange" fn=evaluate from="let v = if unit.is_none() || v.is_no_unit() {" until="let v = v.into_integer()"
+//@  header: pub(super) fn snippet_for_end(v: Numeric, unit: UnitSet) -> Result<Number, Invalid>
+//@  tail: Ok(v)
+//@end
+}
+
+fn for_end(v: f64, vu: crate::value::Unit, unit: crate::value::Unit) -> Option<f64> {
+    match for_to::snippet_for_end(Numeric::new(v, UnitSet::from(vu)), UnitSet::from(unit)) {
+        Ok(n) => Some(f64::from(n)),
+        Err(_) => None,
+    }
+}
+/// C17: `@for $i from a through b` gives $i a's unit, converting a
+/// compatible unit on b; a unitless side takes the other's unit; an
+/// incompatible unit on b is an error.
+#[kani::proof]
+#[kani::stub(std::fmt::format, for_to::format_stub)]
+#[kani::unwind(4)]
+fn c17_for_end_unit_conversion() {
+    use crate::value::Unit;
+    assert!(for_end(2.0, Unit::In, Unit::Px) == Some(192.0), "end value is converted to the start value's unit (2in = 192px)");
+    assert!(for_end(96.0, Unit::Px, Unit::In) == Some(1.0), "96px = 1in");
+    assert!(for_end(3.0, Unit::Px, Unit::Px) == Some(3.0), "same unit: unchanged");
+    assert!(for_end(3.0, Unit::None, Unit::Px) == Some(3.0), "unitless end value: taken as is");
+    assert!(for_end(3.0, Unit::Px, Unit::None) == Some(3.0), "unitless start value: end value taken as is");
+    assert!(for_end(3.0, Unit::Deg, Unit::Px).is_none(), "incompatible unit on the end value is an error");
+    assert!(for_end(3.0, Unit::Em, Unit::Px).is_none(), "em -> px has no fixed ratio: error");
+}
